@@ -107,6 +107,15 @@ func loadBaseline(id string) *Baseline {
 	return &b
 }
 
+func loadOpenList(id string) map[string][]string {
+	m := map[string][]string{}
+	data, err := os.ReadFile(filepath.Join(verifDir, "baseline", id+".open.json"))
+	if err == nil {
+		json.Unmarshal(data, &m)
+	}
+	return m
+}
+
 func okOblig(ob *Oblig) bool {
 	return (ob.Result == "unsat" && !ob.Cover) || (ob.Cover && ob.Result == "sat")
 }
@@ -117,6 +126,10 @@ func cmdCheck(args []string) {
 	}
 	id, tier := args[0], args[1]
 	writeBaseline := len(args) > 2 && args[2] == "--write-baseline"
+	// --write-open: run only the "all_except_open" targets and record the obligations that do not
+	// discharge (known-open: undecided, never claimed) in baseline/<id>.open.json
+	writeOpen := len(args) > 2 && args[2] == "--write-open"
+	openList := loadOpenList(id)
 	t0 := time.Now()
 	seed := 0
 	if s := os.Getenv("VERIF_SEED"); s != "" {
@@ -161,6 +174,9 @@ func cmdCheck(args []string) {
 	var vcs []*VC
 	seen := map[string]bool{}
 	for _, tg := range pc.Targets {
+		if writeOpen && tg.Mode != "all_except_open" {
+			continue
+		}
 		rx := regexp.MustCompile(tg.Fn)
 		var keep *regexp.Regexp
 		if tg.Kinds != "" {
@@ -180,6 +196,21 @@ func cmdCheck(args []string) {
 					if keep.MatchString(ob.Kind) {
 						kept = append(kept, ob)
 					}
+				}
+				vc.obligs = kept
+			}
+			if tg.Mode == "all_except_open" && !writeOpen && !writeBaseline {
+				skip := map[string]bool{}
+				for _, o := range openList[n] {
+					skip[o] = true
+				}
+				var kept []*Oblig
+				for _, ob := range vc.obligs {
+					if skip[ob.Name] {
+						res.undecided = append(res.undecided, n+" "+ob.Name+" (listed as open in baseline/"+id+".open.json: never proved, not claimed)")
+						continue
+					}
+					kept = append(kept, ob)
 				}
 				vc.obligs = kept
 			}
@@ -214,6 +245,23 @@ func cmdCheck(args []string) {
 		}
 	}
 	dischargeAll(vcs, tmo, 16, agree)
+	if writeOpen {
+		open := map[string][]string{}
+		n := 0
+		for _, t := range tvcs {
+			for _, ob := range t.vc.obligs {
+				if !okOblig(ob) {
+					open[t.vc.fnName] = append(open[t.vc.fnName], ob.Name)
+					n++
+				}
+			}
+		}
+		data, _ := json.MarshalIndent(open, "", " ")
+		os.MkdirAll(filepath.Join(verifDir, "baseline"), 0o755)
+		os.WriteFile(filepath.Join(verifDir, "baseline", id+".open.json"), data, 0o644)
+		fmt.Printf("open list written: %d obligations over %d functions\n", n, len(open))
+		return
+	}
 	// extra engines
 	runEngines(p, u, pc, res, tier)
 
@@ -311,10 +359,27 @@ func cmdCheck(args []string) {
 	if len(base.Obligations) > 0 {
 		nrec, nopen := 0, 0
 		byKind := map[string]int{}
-		for _, v := range base.Obligations {
-			nrec += len(v)
+		inBaseline := map[string]bool{}
+		nComplete := 0
+		for _, t := range tvcs {
+			if t.mode == "baseline" {
+				inBaseline[t.vc.fnName] = true
+			}
 		}
-		for _, v := range base.Open {
+		for _, c := range base.Complete {
+			if inBaseline[c] {
+				nComplete++
+			}
+		}
+		for f, v := range base.Obligations {
+			if inBaseline[f] {
+				nrec += len(v)
+			}
+		}
+		for f, v := range base.Open {
+			if !inBaseline[f] {
+				continue
+			}
 			nopen += len(v)
 			for _, o := range v {
 				k := o
@@ -324,7 +389,7 @@ func cmdCheck(args []string) {
 				byKind[k]++
 			}
 		}
-		res.extra["baseline"] = map[string]interface{}{"completely_proved_functions": len(base.Complete), "recorded_obligations": nrec, "open_obligations_not_covered": nopen, "open_by_kind": byKind,
+		res.extra["baseline"] = map[string]interface{}{"functions_in_baseline_mode": len(inBaseline), "completely_proved_functions": nComplete, "recorded_obligations": nrec, "open_obligations_not_covered": nopen, "open_by_kind": byKind,
 			"meaning": "baseline mode: the obligations that discharged (fast) on the reference tree must keep discharging; the open ones were never proved, so a defect behind them is not excluded by this check (listed per function in baseline/" + id + ".json)"}
 	}
 	wall := time.Since(t0).Seconds()
